@@ -93,7 +93,7 @@ DEFAULT_LAYOUT = {
 
 # ------------------------------------------------------------------------------
 #
-def make_pilot(sim, layout, root):
+def make_pilot(sim, layout, root, sandboxes=None):
     '''set up the pilot side and return it (components not yet started)'''
 
     lay = dict(DEFAULT_LAYOUT)
@@ -109,6 +109,8 @@ def make_pilot(sim, layout, root):
     rsbox = '%s/rsbox' % root
     ssbox = '%s/%s' % (rsbox, SID)
     psbox = '%s/%s' % (ssbox, PID)
+    if sandboxes:
+        rsbox, ssbox, psbox = sandboxes
     os.makedirs(psbox + '/env', exist_ok=True)
     os.chdir(psbox)
     os.environ['TMPDIR'] = '%s/tmp' % root
